@@ -1,1 +1,190 @@
-//! reference model `b64` (filled in by the property that needs it)
+//! Reference model `b64`: RFC 4648 section 4 ("base64", standard alphabet, with padding),
+//! written from the RFC text; no library code.
+//!
+//! * Table 1: values 0..25 = 'A'..'Z', 26..51 = 'a'..'z', 52..61 = '0'..'9', 62 = '+', 63 = '/'.
+//! * 24-bit groups of three input bytes become four characters, most significant six bits
+//!   first; a final group of one byte becomes two characters + "==", of two bytes three
+//!   characters + "=" (unused low bits are zero).
+
+/// Table 1 of RFC 4648, built from its description rather than copied as a string.
+pub fn alphabet() -> [u8; 64] {
+    let mut t = [0u8; 64];
+    for i in 0..26 {
+        t[i] = b'A' + i as u8;
+        t[26 + i] = b'a' + i as u8;
+    }
+    for i in 0..10 {
+        t[52 + i] = b'0' + i as u8;
+    }
+    t[62] = b'+';
+    t[63] = b'/';
+    t
+}
+
+fn value_of(c: u8) -> Option<u32> {
+    match c {
+        b'A'..=b'Z' => Some((c - b'A') as u32),
+        b'a'..=b'z' => Some((c - b'a') as u32 + 26),
+        b'0'..=b'9' => Some((c - b'0') as u32 + 52),
+        b'+' => Some(62),
+        b'/' => Some(63),
+        _ => None,
+    }
+}
+
+/// Encode one group of 1..=3 bytes into four characters.
+pub fn encode_group(group: &[u8]) -> [u8; 4] {
+    assert!((1..=3).contains(&group.len()));
+    let t = alphabet();
+    let mut bits: u32 = 0;
+    for i in 0..3 {
+        bits = (bits << 8) | *group.get(i).unwrap_or(&0) as u32;
+    }
+    let mut out = [b'='; 4];
+    let chars = group.len() + 1; // 1 byte -> 2 chars, 2 -> 3, 3 -> 4
+    for (i, o) in out.iter_mut().enumerate().take(chars) {
+        *o = t[((bits >> (18 - 6 * i)) & 63) as usize];
+    }
+    out
+}
+
+pub fn encode(data: &[u8]) -> Vec<u8> {
+    let mut out = Vec::with_capacity(data.len().div_ceil(3) * 4);
+    for g in data.chunks(3) {
+        out.extend_from_slice(&encode_group(g));
+    }
+    out
+}
+
+#[derive(Debug, Clone, PartialEq, Eq)]
+pub enum DecodeError {
+    Length,
+    Symbol(usize),
+    Padding(usize),
+    NonCanonical(usize),
+}
+
+/// Strict decoder: length multiple of four, alphabet symbols only, padding only as the last
+/// one or two characters, unused bits zero.
+pub fn decode(text: &[u8]) -> Result<Vec<u8>, DecodeError> {
+    if text.len() % 4 != 0 {
+        return Err(DecodeError::Length);
+    }
+    let mut out = Vec::with_capacity(text.len() / 4 * 3);
+    let groups = text.len() / 4;
+    for (gi, g) in text.chunks(4).enumerate() {
+        let pad = if g[3] == b'=' { if g[2] == b'=' { 2 } else { 1 } } else { 0 };
+        if pad > 0 && gi + 1 != groups {
+            return Err(DecodeError::Padding(gi * 4));
+        }
+        let mut bits = 0u32;
+        for (i, c) in g.iter().enumerate() {
+            let v = if i >= 4 - pad {
+                0
+            } else {
+                match value_of(*c) {
+                    Some(v) => v,
+                    None if *c == b'=' => return Err(DecodeError::Padding(gi * 4 + i)),
+                    None => return Err(DecodeError::Symbol(gi * 4 + i)),
+                }
+            };
+            bits = (bits << 6) | v;
+        }
+        let bytes = [(bits >> 16) as u8, (bits >> 8) as u8, bits as u8];
+        let n = 3 - pad;
+        if bytes[n..].iter().any(|b| *b != 0) {
+            return Err(DecodeError::NonCanonical(gi * 4));
+        }
+        out.extend_from_slice(&bytes[..n]);
+    }
+    Ok(out)
+}
+
+/// Incremental view of the encoder: what must have been emitted after each byte.
+#[derive(Debug, Clone, Default)]
+pub struct IncEncoder {
+    pub carry: Vec<u8>,
+}
+
+impl IncEncoder {
+    /// feed one byte, return the characters that become determined by it
+    pub fn push(&mut self, b: u8) -> Vec<u8> {
+        self.carry.push(b);
+        if self.carry.len() == 3 {
+            let out = encode_group(&self.carry).to_vec();
+            self.carry.clear();
+            out
+        } else {
+            vec![]
+        }
+    }
+    /// characters emitted by finishing now
+    pub fn finish(&self) -> Vec<u8> {
+        if self.carry.is_empty() {
+            vec![]
+        } else {
+            encode_group(&self.carry).to_vec()
+        }
+    }
+}
+
+/// Compare `encode` with CPython's base64 module; returns number of compared strings
+/// (0 when python3 is not available).
+pub fn validate_against_cpython() -> Result<u64, String> {
+    let script = r#"
+import base64,sys
+out=[]
+for n in range(0,70):
+    d=bytes((37*i+11)&255 for i in range(n))
+    out.append(base64.b64encode(d).decode())
+for b in range(256):
+    out.append(base64.b64encode(bytes([b])).decode())
+    out.append(base64.b64encode(bytes([b,255-b])).decode())
+    out.append(base64.b64encode(bytes([255-b,b,(b*7)&255])).decode())
+sys.stdout.write("\n".join(out))
+"#;
+    let out = match std::process::Command::new("python3").arg("-c").arg(script).output() {
+        Ok(o) => o,
+        Err(_) => return Ok(0),
+    };
+    if !out.status.success() {
+        return Err(format!("python3 failed: {}", String::from_utf8_lossy(&out.stderr)));
+    }
+    let text = String::from_utf8_lossy(&out.stdout).to_string();
+    let mut expect: Vec<Vec<u8>> = vec![];
+    for n in 0..70usize {
+        expect.push((0..n).map(|i| ((37 * i + 11) & 255) as u8).collect());
+    }
+    for b in 0..=255u8 {
+        expect.push(vec![b]);
+        expect.push(vec![b, 255 - b]);
+        expect.push(vec![255 - b, b, (b as u32 * 7 & 255) as u8]);
+    }
+    // the first line is empty (n = 0), so split manually
+    let lines: Vec<&str> = text.split('\n').collect();
+    if lines.len() != expect.len() {
+        return Err(format!("python3 produced {} lines, expected {}", lines.len(), expect.len()));
+    }
+    for (d, l) in expect.iter().zip(lines) {
+        if encode(d) != l.as_bytes() {
+            return Err(format!("reference base64 disagrees with CPython on {:?}: {:?} vs {:?}", d, String::from_utf8_lossy(&encode(d)), l));
+        }
+        if decode(l.as_bytes()).as_deref() != Ok(&d[..]) {
+            return Err(format!("reference base64 decoder disagrees with CPython on {:?}", l));
+        }
+    }
+    Ok(expect.len() as u64)
+}
+
+#[cfg(test)]
+mod tests {
+    use super::*;
+    #[test]
+    fn rfc_vectors() {
+        // RFC 4648 section 10
+        for (d, e) in [("", ""), ("f", "Zg=="), ("fo", "Zm8="), ("foo", "Zm9v"), ("foob", "Zm9vYg=="), ("fooba", "Zm9vYmE="), ("foobar", "Zm9vYmFy")] {
+            assert_eq!(encode(d.as_bytes()), e.as_bytes());
+            assert_eq!(decode(e.as_bytes()).unwrap(), d.as_bytes());
+        }
+    }
+}
